@@ -1305,7 +1305,14 @@ def check_C10(ctx, rep):
                     called = any(f[0] == 'called' and f[3] == cb for f in S)
                     oor = cmp_int_true(S, 'le', lambda l: is_call(l, 'len'), lambda r2: is_call(r2, 'into_raw')) or \
                         checked_access_fact(S, lambda i: is_call(i, 'into_raw'), False)
-                    rep.ob('C10.R3', pe_fn, 'arm:%s:return-only-after-transition-or-out-of-range' % var, called or oor, '' if (called or oor) else show_facts(S))
+                    # an ended machine ignores every event (transition returns at once for STATE_END: C04.R4), so returning without
+                    # the call when the event's own machine is known to have ended changes nothing
+                    def own_state(e):
+                        e = unload(e)
+                        return is_field(e, 'current_state', 'MachineRuntime') and contains(e, lambda y: is_call(y, 'into_raw'))
+                    is_end = lambda e: (isinstance(e, tuple) and e and e[0] == 'cdef' and e[1].endswith('STATE_END')) or is_const(e, int(prog.const_val('maybenot::constants::STATE_END')))
+                    ended = has_cmp(S, 'eq', own_state, is_end, True) or has_cmp(S, 'ne', own_state, is_end, False)
+                    rep.ob('C10.R3', pe_fn, 'arm:%s:return-only-after-transition-or-out-of-range' % var, called or oor or ended, '' if (called or oor or ended) else show_facts(S))
     from .rules_limits import rule_dispatch_discipline
     rule_dispatch_discipline(ctx, rep, 'C10.R3', ())
     check_every_event_processed(ctx, rep, 'C10.R3')
